@@ -34,20 +34,32 @@ Definition C29_concurrent_refuted_statement : Prop :=
     content (restore (backup (fst (plan wstate_new ops)) i j)) = None.
 Theorem C29_concurrent_refuted : C29_concurrent_refuted_statement.
 Proof.
-  exists [WCommit; WCompact 0; WCommit; WCompact 0], 3%nat, 6%nat.
+  exists [WCommit; WCompact 0; WCommit; WCompact 0], 4%nat, 8%nat.
   split; [repeat constructor|]. split; [vm_compute; repeat constructor|].
   split; [exact (proj1 (proj2 backup_concurrent_refuted))|exact (proj1 backup_concurrent_refuted)].
 Qed.
 Print Assumptions C29_concurrent_refuted.
 
-(* conditional: outside the class (only commits run between the copies) the backup restores the source as of the
-   moment the log was copied, including every transaction committed until then (hence all committed before the start) *)
-Definition C29_concurrent_commits_statement : Prop :=
+(* conditional: outside the class (commits, label creations and close-time log rewrites, but no compaction, run
+   between the copies) the backup restores the source as of the moment the log was copied, including every
+   transaction committed and every label created until then (hence all of them from before the start) *)
+Definition C29_concurrent_nocompact_statement : Prop :=
   forall before between steps1 s1 steps2 s2,
-    plan wstate_new before = (steps1, s1) -> plan s1 between = (steps2, s2) -> only_commits between = true ->
+    plan wstate_new before = (steps1, s1) -> plan s1 between = (steps2, s2) -> no_compaction between = true ->
     let steps := steps1 ++ steps2 in
     content (restore (backup steps (length steps1) (length steps))) = Some (committed s2) /\
     content (restore (backup steps (length steps1) (length steps))) = content (apply_steps disk_empty steps).
-Theorem C29_concurrent_commits : C29_concurrent_commits_statement.
-Proof. exact backup_concurrent_commits. Qed.
-Print Assumptions C29_concurrent_commits.
+Theorem C29_concurrent_nocompact : C29_concurrent_nocompact_statement.
+Proof. exact backup_concurrent_nocompact. Qed.
+Print Assumptions C29_concurrent_nocompact.
+
+(* the in-place rewrite of the property-tree root during a compaction, seen by a backup whose two copies fall
+   inside that compaction (after the in-place write, before the manifest): still the source at that moment;
+   with the page copy before it and the log copy after the manifest: the known class *)
+Definition C29_inplace_statement : Prop :=
+  consistent_at_some_moment concurrent_witness 7 7 = true /\
+  content (restore (backup concurrent_witness 7 7)) = Some ([1; 2], [], 2)%N /\
+  content (restore (backup concurrent_witness 5 8)) = None.
+Theorem C29_inplace : C29_inplace_statement.
+Proof. exact backup_mid_compaction_inplace. Qed.
+Print Assumptions C29_inplace.
